@@ -34,12 +34,13 @@ PROBES = ["crash_points_enumerated", "crash_inside_copy", "crash_inside_record_w
           "crash_torn_write", "manager_refused_after_crash", "manager_listed_after_crash", "manager_not_listed_after_crash",
           "preexisting_backup_survived", "restore_exact_checked", "restore_after_delete", "restore_after_rmdir",
           "restore_tasks_nonempty_writeset", "restore_tasks_checked", "remodel_twice_checked",
-          "remodel_modified_between", "second_backup_refused", "isolation_checked", "io_error_injected", "dispatch_reads_backup_checked", "same_manager_retry_after_io_error"]
+          "remodel_modified_between", "second_backup_refused", "isolation_checked", "io_error_injected", "dispatch_reads_backup_checked", "same_manager_retry_after_io_error",
+          "history_restore_killed", "history_remodel_killed"]
 RULE = ("Each run is one generated scenario (data tree of 2-8 files in 1-3 directory levels, BIDS-like names with and "
         "without a task entity in both spellings, sizes 0 B-200 kB, optional pre-existing backup, file selection as "
         "run_remodel_backup does it).  Runs with index%3==0 are crash scenarios: every file-system step of one backup "
         "operation is enumerated as a crash point (complete enumeration of the crash dimension within the scenario); "
-        "other runs are fault-free operation histories of 3-9 operations.  Non-trivial: at least one crash point hit "
+        "other runs are operation histories of 3-10 operations, fault-free except that 1 restore / remodel run in 5 is killed at a seeded step (later restores and remodel runs are judged as usual).  Non-trivial: at least one crash point hit "
         "inside the backup, or a history containing a restore or a second remodel after a mutation.  Distinct = "
         "distinct sha-256 of the whole event history.")
 COMPONENTS = {
@@ -208,7 +209,13 @@ def generate(run_index, seed, tier):
             ops.append({"op": "backup", "name": g.pick(names), "via": g.pick(["cli", "api"]), "sel": _gen_selection(g)})
         else:
             ops.append({"op": "reopen"})
-    if not any(o["op"] == "restore" for o in ops):
+    # an interrupted restore / remodel run is one more thing that "was done to the data files in between"
+    for o in ops[1:]:
+        if o["op"] in ("restore", "remodel") and g.chance(0.2):
+            o["kill"] = {"step": g.pick([0, 1, 2, 3, 5, 8, 13, 21, 34, 55, 89, 144, 233]), "torn": g.pick([None, None, 0.5])}
+    if not any(o["op"] == "restore" and not o.get("kill") for o in ops):
+        ops.append({"op": "restore", "name": names[0], "via": g.pick(["cli", "api"]), "tasks": []})
+    elif any(o.get("kill") for o in ops) and g.chance(0.7):
         ops.append({"op": "restore", "name": names[0], "via": g.pick(["cli", "api"]), "tasks": []})
     sc["ops"] = ops
     return sc
@@ -245,6 +252,14 @@ def shrink(sc):
             c["tree"][i]["size"] = 60
             yield c
     for i, o in enumerate(ops):
+        if o.get("kill"):
+            c = copy.deepcopy(sc)
+            del c["ops"][i]["kill"]
+            yield c
+            if o["kill"].get("torn") is not None:
+                c = copy.deepcopy(sc)
+                c["ops"][i]["kill"]["torn"] = None
+                yield c
         if o.get("sel"):
             c = copy.deepcopy(sc)
             c["ops"][i]["sel"] = {}
@@ -473,6 +488,8 @@ def execute(sc, script=None):
                     _do_backup(world, o, oi)
                 elif kind == "modify" or kind == "add":
                     _do_user_edit(world, o)
+                elif kind in ("restore", "remodel") and o.get("kill"):
+                    nontrivial = _do_killed(world, o, oi, model_dir) or nontrivial
                 elif kind == "restore":
                     nontrivial = True
                     _do_restore(world, o, oi)
@@ -729,6 +746,33 @@ def _do_remodel(world, o, oi, model_dir):
                        % (o["twice"], v, None if once[v] is None else len(once[v]), None if twice[v] is None else len(twice[v])),
                        "twice-differs-from-once")
             break
+    return True
+
+
+def _do_killed(world, o, oi, model_dir):
+    """A restore or remodel run that is killed at a seeded step (optionally with a torn pending write).  The run itself
+    is not judged; the backups must be exactly what they were (checked by _check_isolation after every operation), a
+    fresh manager must still come up, and every later restore / remodel in the history is judged as usual."""
+    name = o["name"]
+    if name not in world.model or not world.model[name]:
+        return False
+    k = o["kill"]
+    fault = {"kind": "kill", "step": k["step"], "torn": k.get("torn")}
+    if o["op"] == "restore":
+        p = world.run_proc("restore-killed", _restore_fn(world, o), [fault])
+    else:
+        model_path = os.path.join(model_dir, "model-%d.json" % o["model"])
+        with real_open(model_path, "w") as f:
+            json.dump(MODELS[o["model"]], f)
+        p = world.run_proc("remodel-killed", _remodel_fn(world, o, model_path), [fault])
+    if p.state != "killed":
+        world.probe("history_kill_after_last_step")
+        return False
+    world.probe("history_%s_killed" % o["op"])
+    man, exc = world.fresh_manager()
+    if man is None and not world.crashed_names:
+        world.viol("backup-isolation", "after a %s run was killed at step %d a fresh BackupManager raises %s: %s"
+                   % (o["op"], k["step"], type(exc).__name__, str(exc)[:200]), "manager-raises-after-killed-%s" % o["op"])
     return True
 
 
